@@ -18,6 +18,9 @@ package fscache
 
 // Removed(c, p): a pending Remove of p, or a pending RemoveAll of p or of a directory above it
 //@ define Removed(c ref, p string) bool = has(c.changes.remove, p) || has(c.changes.removeAll, p) || existss(q, has(c.changes.removeAll, q) && hasprefix(p, cat(q, "/")))
+//@ define Child(dir string, name string) string = cleanPath(cat(cat(dir, "/"), name))
+// Kept(c, dir, kept): no entry of kept has a pending remove
+//@ define Kept(c ref, dir string, kept []os.FileInfo) bool = forall(k, 0 <= k && k < len(kept) ==> kept[k] != nil && !Removed(c, Child(dir, Name(kept[k]))))
 
 // journal updates: exactly one entry is added, everything else is kept
 //@ func (*Cache).changeWrite [C06 C07]
@@ -40,6 +43,15 @@ package fscache
 //@   modifies M:string:fs.FileMode, $maplen
 //@   ensures has(c.changes.mkdirAll, dest) && c.changes.mkdirAll[dest] == value && foralls(s, old(has(c.changes.mkdirAll, s)) ==> has(c.changes.mkdirAll, s))
 
+// isRemoved decides Removed: the remove journal is looked up, the recursive-remove journal is
+// scanned for the path itself or a directory above it
+//@ func (*Cache).isRemoved [C06 C07]
+//@   requires CInv(c)
+//@   modifies $none
+//@   ensures result <==> Removed(c, p)
+//@   loop 1 invariant !has(c.changes.remove, p)
+//@   loop 1 invariant foralls(k, visitedIn(1, k) ==> !(p == k || hasprefix(p, cat(k, "/"))))
+
 // buffer first: a path present in the buffer is served from the buffer (read-your-writes)
 //@ func (*Cache).srcFS [C06 C07]
 //@   requires CInv(c)
@@ -50,10 +62,10 @@ package fscache
 //@   trace_ensures true : ^EX $
 //@   ensures src == cleanPath(p) && srcFS != nil && (srcFS == c.bufferFS || srcFS == c.remoteFS)
 //@   ensures inbuf ==> srcFS == c.bufferFS
-//@   ensures [C07] !inbuf && !Removed(c, cleanPath(p)) ==> srcFS == c.remoteFS
-//@   ensures [C06] !inbuf ==> srcFS == c.remoteFS
-// a path with a pending remove is not served from the remote (read-your-writes)
-//@   ensures [C07] !inbuf && Removed(c, cleanPath(p)) ==> srcFS == c.bufferFS
+//@   ensures !inbuf && !Removed(c, cleanPath(p)) ==> srcFS == c.remoteFS
+// a path with a pending remove is not served from the remote (read-your-writes): the buffer,
+// which does not hold it, answers
+//@   ensures !inbuf && Removed(c, cleanPath(p)) ==> srcFS == c.bufferFS
 
 // mutators: the remote is only read; the cleaned path is journalled on every path; the buffer gets the cleaned path
 //@ func (*Cache).MkdirAll [C06 C07]
@@ -117,42 +129,42 @@ package fscache
 //@   only_calls c.remoteFS : ReadDir IsExist IsFile IsDir ReadFile Reader Lstat Filespace
 //@   trace Filespace.IsExist as QB bind bq when $recv == c.bufferFS
 //@   trace Filespace.IsExist as QR bind rq when $recv == c.remoteFS
-//@   at_call Filespace.IsExist requires ($recv == c.bufferFS || ($recv == c.remoteFS && bound(bq))) && $0 == cleanPath(old(src))
+//@   at_call Filespace.IsExist requires ($recv == c.bufferFS || ($recv == c.remoteFS && bound(bq) && !Removed(c, cleanPath(old(src))))) && $0 == cleanPath(old(src))
 //@   ensures bound(bq)
 // buffer first; a node of the remote that no pending operation touched is visible
 //@   ensures bq ==> result
 //@   ensures !bq && !rq ==> !result
 //@   ensures !bq && rq && !Removed(c, cleanPath(old(src))) ==> result
 // a node of the remote with a pending remove is gone (read-your-writes)
-//@   ensures [C07] !bq && rq && Removed(c, cleanPath(old(src))) ==> !result
+//@   ensures !bq && Removed(c, cleanPath(old(src))) ==> !result
 //@ func (*Cache).IsFile [C06 C07]
 //@   requires CInv(c)
 //@   modifies $none
 //@   only_calls c.remoteFS : ReadDir IsExist IsFile IsDir ReadFile Reader Lstat Filespace
 //@   trace Filespace.IsFile as QB bind bq when $recv == c.bufferFS
 //@   trace Filespace.IsFile as QR bind rq when $recv == c.remoteFS
-//@   at_call Filespace.IsFile requires ($recv == c.bufferFS || ($recv == c.remoteFS && bound(bq))) && $0 == cleanPath(old(src))
+//@   at_call Filespace.IsFile requires ($recv == c.bufferFS || ($recv == c.remoteFS && bound(bq) && !Removed(c, cleanPath(old(src))))) && $0 == cleanPath(old(src))
 //@   ensures bound(bq)
 // buffer first; a node of the remote that no pending operation touched is visible
 //@   ensures bq ==> result
 //@   ensures !bq && !rq ==> !result
 //@   ensures !bq && rq && !Removed(c, cleanPath(old(src))) ==> result
 // a node of the remote with a pending remove is gone (read-your-writes)
-//@   ensures [C07] !bq && rq && Removed(c, cleanPath(old(src))) ==> !result
+//@   ensures !bq && Removed(c, cleanPath(old(src))) ==> !result
 //@ func (*Cache).IsDir [C06 C07]
 //@   requires CInv(c)
 //@   modifies $none
 //@   only_calls c.remoteFS : ReadDir IsExist IsFile IsDir ReadFile Reader Lstat Filespace
 //@   trace Filespace.IsDir as QB bind bq when $recv == c.bufferFS
 //@   trace Filespace.IsDir as QR bind rq when $recv == c.remoteFS
-//@   at_call Filespace.IsDir requires ($recv == c.bufferFS || ($recv == c.remoteFS && bound(bq))) && $0 == cleanPath(old(src))
+//@   at_call Filespace.IsDir requires ($recv == c.bufferFS || ($recv == c.remoteFS && bound(bq) && !Removed(c, cleanPath(old(src))))) && $0 == cleanPath(old(src))
 //@   ensures bound(bq)
 // buffer first; a node of the remote that no pending operation touched is visible
 //@   ensures bq ==> result
 //@   ensures !bq && !rq ==> !result
 //@   ensures !bq && rq && !Removed(c, cleanPath(old(src))) ==> result
 // a node of the remote with a pending remove is gone (read-your-writes)
-//@   ensures [C07] !bq && rq && Removed(c, cleanPath(old(src))) ==> !result
+//@   ensures !bq && Removed(c, cleanPath(old(src))) ==> !result
 //@ func (*Cache).ReadFile [C06 C07]
 //@   requires CInv(c)
 //@   only_calls c.remoteFS : ReadDir IsExist IsFile IsDir ReadFile Reader Lstat Filespace
@@ -233,31 +245,51 @@ package fscache
 //@   ensures cperr != nil ==> err == cperr
 //@   ensures treeerr != nil ==> err == treeerr
 
-// ReadDir merges the two listings by name: the remote's entries first, then the buffer's
-// entries whose name the remote does not list (a created directory is listed once)
+// ReadDir: the remote's entries without those that have a pending remove (kept, in the remote's
+// order), then the buffer's entries whose name no kept entry has (a created directory is listed
+// once). A directory that itself has a pending remove contributes no remote entries at all.
 //@ func (*Cache).ReadDir [C07]
 //@   requires CInv(c)
 //@   only_calls c.remoteFS : ReadDir IsExist IsFile IsDir ReadFile Reader Lstat Filespace
 //@   trace Filespace.ReadDir as RR bind rr when $recv == c.remoteFS
 //@   trace Filespace.ReadDir as BR bind br when $recv == c.bufferFS
 //@   at_call Filespace.ReadDir requires ($recv == c.bufferFS || $recv == c.remoteFS) && $0 == cleanPath(old(src))
+//@   at_call (*Cache).isRemoved in loop 1 requires $0 == c && $1 == Child(src, Name(rnode))
 //@   ensures rr.1 != nil && br.1 != nil ==> err != nil && len(result) == 0
-//@   loop 1 invariant -1 <= $i && $i < len(bufferDirs) && len(result) >= len(remoteDirs)
-//@   loop 1 invariant forall(k, 0 <= k && k < len(remoteDirs) ==> result[k] == remoteDirs[k]) && forall(k, len(remoteDirs) <= k && k < len(result) ==> forall(j, 0 <= j && j < len(remoteDirs) ==> Name(result[k]) != Name(remoteDirs[j])))
-//@   loop 1 invariant (arr(result) != arr(bufferDirs) || len(bufferDirs) == 0) && (arr(result) == arr(remoteDirs) ==> off(result) == off(remoteDirs)) && (arr(bufferDirs) == 0 || allocated(arr(bufferDirs))) && (arr(remoteDirs) == 0 || allocated(arr(remoteDirs))) && (arr(result) == 0 || allocated(arr(result)))
+//@   ensures Removed(c, cleanPath(old(src))) && br.1 != nil ==> err != nil && len(result) == 0
+//@   ensures !((rr.1 != nil || Removed(c, cleanPath(old(src)))) && br.1 != nil) ==> err == nil
+// -- the filter: no kept entry has a pending remove (invariant); pass by pass, an entry of the
+// -- remote listing without a pending remove is appended, any other is skipped, and what was
+// -- kept stays (step relations: together they say kept = the listing minus the removed entries,
+// -- in order)
+//@   loop 1 invariant -1 <= $i && $i < len(remoteDirs) && len(result) <= $i + 1 && src == cleanPath(old(src))
+//@   loop 1 invariant Kept(c, src, result)
+//@   loop 1 step $i == prev($i) + 1
+//@   loop 1 step !Removed(c, Child(src, Name(remoteDirs[$i]))) ==> len(result) == prev(len(result)) + 1 && result[len(result) - 1] == remoteDirs[$i]
+//@   loop 1 step Removed(c, Child(src, Name(remoteDirs[$i]))) ==> len(result) == prev(len(result))
+//@   loop 1 step forall(k, 0 <= k && k < prev(len(result)) ==> result[k] == prev(result[k]))
+//@   loop 1 invariant (arr(result) == 0 ==> cap(result) == 0) && (arr(result) != 0 ==> arr(result) != arr(remoteDirs) && arr(result) != arr(bufferDirs))
+//@   loop 1 invariant (arr(bufferDirs) == 0 || allocated(arr(bufferDirs))) && (arr(remoteDirs) == 0 || allocated(arr(remoteDirs))) && (arr(result) == 0 || allocated(arr(result)))
 //@   loop 1 invariant forall(k, 0 <= k && k < len(bufferDirs) ==> bufferDirs[k] != nil) && forall(k, 0 <= k && k < len(remoteDirs) ==> remoteDirs[k] != nil)
-//@   loop 2 invariant -1 <= $i && $i < len(remoteDirs) && bnode != nil && len(result) >= len(remoteDirs)
+//@   loop 1 invariant bufferDirs == br.0 && (rr.1 == nil && !Removed(c, src) ==> remoteDirs == rr.0) && (rr.1 != nil || Removed(c, src) ==> len(remoteDirs) == 0) && ((rr.1 == nil && !Removed(c, src)) || br.1 == nil)
+// -- the merge (remoteDirs now is the kept list)
+//@   loop 2 invariant -1 <= $i && $i < len(bufferDirs) && len(result) >= len(remoteDirs)
 //@   loop 2 invariant forall(k, 0 <= k && k < len(remoteDirs) ==> result[k] == remoteDirs[k]) && forall(k, len(remoteDirs) <= k && k < len(result) ==> forall(j, 0 <= j && j < len(remoteDirs) ==> Name(result[k]) != Name(remoteDirs[j])))
-//@   loop 2 invariant forall(j, 0 <= j && j <= $i ==> Name(bnode) != Name(remoteDirs[j]))
-//@   loop 2 invariant (arr(result) != arr(bufferDirs) || len(bufferDirs) == 0) && (arr(result) == arr(remoteDirs) ==> off(result) == off(remoteDirs)) && (arr(bufferDirs) == 0 || allocated(arr(bufferDirs))) && (arr(remoteDirs) == 0 || allocated(arr(remoteDirs))) && (arr(result) == 0 || allocated(arr(result)))
+//@   loop 2 invariant (arr(result) == 0 ==> cap(result) == 0) && (arr(result) != 0 ==> arr(result) != arr(bufferDirs)) && (arr(result) == arr(remoteDirs) ==> off(result) == off(remoteDirs)) && (arr(bufferDirs) == 0 || allocated(arr(bufferDirs))) && (arr(remoteDirs) == 0 || allocated(arr(remoteDirs))) && (arr(result) == 0 || allocated(arr(result)))
 //@   loop 2 invariant forall(k, 0 <= k && k < len(bufferDirs) ==> bufferDirs[k] != nil) && forall(k, 0 <= k && k < len(remoteDirs) ==> remoteDirs[k] != nil)
-//@   ensures !(rr.1 != nil && br.1 != nil) ==> err == nil
-//@   ensures err == nil ==> len(result) >= len(rr.0)
-// the merge: the remote's entries first, then only buffer entries under names the remote does not list
-//@   ensures err == nil ==> forall(k, 0 <= k && k < len(rr.0) ==> result[k] == rr.0[k])
-//@   ensures err == nil ==> forall(k, len(rr.0) <= k && k < len(result) ==> forall(j, 0 <= j && j < len(rr.0) ==> Name(result[k]) != Name(rr.0[j])))
-//@   loop 1 invariant remoteDirs == rr.0 && bufferDirs == br.0 && (rr.1 == nil || br.1 == nil)
-//@   loop 2 invariant remoteDirs == rr.0 && bufferDirs == br.0 && (rr.1 == nil || br.1 == nil)
+//@   loop 2 invariant Kept(c, src, remoteDirs) && bufferDirs == br.0 && src == cleanPath(old(src)) && (rr.1 != nil || Removed(c, src) ==> len(remoteDirs) == 0) && ((rr.1 == nil && !Removed(c, src)) || br.1 == nil)
+//@   loop 3 invariant -1 <= $i && $i < len(remoteDirs) && bnode != nil && len(result) >= len(remoteDirs)
+//@   loop 3 invariant forall(k, 0 <= k && k < len(remoteDirs) ==> result[k] == remoteDirs[k]) && forall(k, len(remoteDirs) <= k && k < len(result) ==> forall(j, 0 <= j && j < len(remoteDirs) ==> Name(result[k]) != Name(remoteDirs[j])))
+//@   loop 3 invariant forall(j, 0 <= j && j <= $i ==> Name(bnode) != Name(remoteDirs[j]))
+//@   loop 3 invariant (arr(result) == 0 ==> cap(result) == 0) && (arr(result) != 0 ==> arr(result) != arr(bufferDirs)) && (arr(result) == arr(remoteDirs) ==> off(result) == off(remoteDirs)) && (arr(bufferDirs) == 0 || allocated(arr(bufferDirs))) && (arr(remoteDirs) == 0 || allocated(arr(remoteDirs))) && (arr(result) == 0 || allocated(arr(result)))
+//@   loop 3 invariant forall(k, 0 <= k && k < len(bufferDirs) ==> bufferDirs[k] != nil) && forall(k, 0 <= k && k < len(remoteDirs) ==> remoteDirs[k] != nil)
+//@   loop 3 invariant Kept(c, src, remoteDirs) && bufferDirs == br.0 && src == cleanPath(old(src)) && (rr.1 != nil || Removed(c, src) ==> len(remoteDirs) == 0) && ((rr.1 == nil && !Removed(c, src)) || br.1 == nil)
+// -- the result: the kept remote entries first (none with a pending remove, none missing) ...
+//@   ensures err == nil ==> len(result) >= len(remoteDirs) && forall(k, 0 <= k && k < len(remoteDirs) ==> result[k] == remoteDirs[k])
+//@   ensures err == nil ==> Kept(c, cleanPath(old(src)), remoteDirs)
+//@   ensures err == nil && (rr.1 != nil || Removed(c, cleanPath(old(src)))) ==> len(remoteDirs) == 0
+// -- ... then only buffer entries under names no kept entry has
+//@   ensures err == nil ==> forall(k, len(remoteDirs) <= k && k < len(result) ==> forall(j, 0 <= j && j < len(remoteDirs) ==> Name(result[k]) != Name(remoteDirs[j])))
 
 // the constructors establish the cache invariant every method relies on
 //@ func newCache [C06 C07]
